@@ -196,6 +196,10 @@ class PtypeScenario(Scenario):
         add('Pupil', 'PUPS', k={'focal_length': ph['f']})
         add('Pupil', 'PUP2', k={'amplitude': '@a0', 'pixelscale': ph['dx'], 'focal_length': ph['f'] * 1.5})
         add('Pupil', 'PUPS2', k={'focal_length': ph['f'] * 0.75})
+        # the documented alias spelling of the amplitude on every class
+        add('Pupil', 'PUPAMP', k={'amp': '@a0', 'pixelscale': ph['dx'], 'focal_length': ph['f']})
+        add('Image', 'IMGAMP', k={'amp': '@a1'})
+        add('Tilt', 'TLTAMP', k={'x': 1e-6 / ph['f'], 'y': 0.0, 'amp': 0.9})
         add('Image', 'IMG', k={})
         add('Image', 'IMGA', k={'amplitude': '@a1'})
         add('Plane', 'PLN', k={'amplitude': '@a0', 'pixelscale': ph['dx']})
@@ -232,6 +236,9 @@ class PtypeScenario(Scenario):
         P['PUPS'] = {'pt': cls['Pupil'], 'px': None, 'arr': False, 'shape': (), 'fl': ph['f'], 'tilt': False, 'pupil': True}
         P['PUP2'] = {'pt': cls['Pupil'], 'px': dx, 'arr': True, 'shape': S0, 'fl': ph['f'] * 1.5, 'tilt': False, 'pupil': True}
         P['PUPS2'] = {'pt': cls['Pupil'], 'px': None, 'arr': False, 'shape': (), 'fl': ph['f'] * 0.75, 'tilt': False, 'pupil': True}
+        P['PUPAMP'] = {'pt': cls['Pupil'], 'px': dx, 'arr': True, 'shape': S0, 'fl': ph['f'], 'tilt': False, 'pupil': True}
+        P['IMGAMP'] = {'pt': cls['Image'], 'px': None, 'arr': True, 'shape': S1, 'fl': None, 'tilt': False}
+        P['TLTAMP'] = {'pt': cls['Tilt'], 'px': None, 'arr': False, 'shape': (), 'fl': None, 'tilt': True}
         P['IMG'] = {'pt': cls['Image'], 'px': None, 'arr': False, 'shape': (), 'fl': None, 'tilt': False}
         P['IMGA'] = {'pt': cls['Image'], 'px': None, 'arr': True, 'shape': S1, 'fl': None, 'tilt': False}
         P['PLN'] = {'pt': 'none', 'px': dx, 'arr': True, 'shape': S0, 'fl': None, 'tilt': False}
